@@ -5,6 +5,7 @@ Oracles: fresh-object refinement (nugget free), twin execution (any nugget).
 """
 import contextlib
 import io
+import warnings
 
 import numpy as np
 
@@ -136,21 +137,52 @@ def gen_config(rng):
     if not cfg["faults"]:
         w["fault"] = 0
     cfg["weights"] = w
+    if flavor == "plain" and rng.random() < 0.12:
+        # history before the first use: the model was built in another dimension and brought
+        # to this one in place (dim, then ratios and angles re-assigned)
+        md = model["dim"]
+        cfg["model_route"] = {"from_dim": rng.choice([d for d in (1, 2, 3) if d != md])}
     return cfg
 
 
 class Side:
     """One SRF instance with its own callables (SUT or twin)."""
 
-    def __init__(self, spec, ctx, tag):
+    def __init__(self, spec, ctx, tag, route=None):
         self.tag = tag
         self.fns = {}
         self.seed_objs = {}
-        self.srf = build_srf(spec, ctx if tag == "sut" else None, self.fns)
+        self.srf = build_srf(spec, ctx if tag == "sut" else None, self.fns, route=route)
 
 
-def build_srf(spec, ctx=None, fns=None):
-    model = cm.build_model(spec["model"])
+def model_via_dim_change(mspec, from_dim):
+    """The same model, reached through an in-place change of the dimension."""
+    d0, d1 = from_dim, mspec["dim"]
+    s0 = cm.spec_copy(mspec)
+    s0["dim"] = d0
+    s0["anis"] = (list(mspec["anis"]) + [1.0] * d0)[: d0 - 1]
+    s0["angles"] = (list(mspec["angles"]) + [0.0] * 3)[: cm.n_angles(d0)]
+    try:
+        m = cm.build_model(s0)
+        with warnings.catch_warnings():
+            warnings.simplefilter("ignore")
+            m.dim = d1
+        if d1 > 1:
+            m.anis = list(mspec["anis"])
+            m.angles = list(mspec["angles"])
+    except ValueError:
+        return None  # not a valid model in the other dimension
+    return m
+
+
+def build_srf(spec, ctx=None, fns=None, route=None):
+    model = None
+    if route and route.get("from_dim"):
+        model = model_via_dim_change(spec["model"], route["from_dim"])
+        if model is not None and ctx is not None:
+            ctx.probe("model_built_via_dim_change")
+    if model is None:
+        model = cm.build_model(spec["model"])
     dim = spec["model"]["dim"]
     mean = cm.make_fn(spec["mean"], dim, ctx, "mean")
     trend = cm.make_fn(spec["trend"], dim, ctx, "trend")
@@ -186,8 +218,9 @@ class Machine:
         self.axes = [list(a) for a in config["axes"]]
         self.pool = cm.grid_points(self.axes)
         self.npool = self.pool.shape[1]
-        self.sut = Side(self.spec, ctx, "sut")
-        self.twin = Side(self.spec, ctx, "twin") if config.get("twin") else None
+        route = config.get("model_route")
+        self.sut = Side(self.spec, ctx, "sut", route)
+        self.twin = Side(self.spec, ctx, "twin", route) if config.get("twin") else None
         self.spec["model"] = read_model(self.sut.srf.model)  # normal form for comparisons
         self.ref_cache = {}
         self.undo = []
@@ -328,7 +361,11 @@ class Machine:
             v = rng.choice([1.0, 0.5, 2.0])
         else:
             v = rng.choice(cm.opt_grid(m["cls"], md)[p[4:]])
-        return {"op": "set", "param": p, "value": v}
+        op = {"op": "set", "param": p, "value": v}
+        if p in ("anis", "angles") and isinstance(v, list) and self.flavor == "plain" \
+                and rng.random() < 0.25:
+            op["elementwise"] = True
+        return op
 
     def _gen_gen_set(self, rng):
         kind = self.spec["gen"]["kind"]
@@ -500,6 +537,15 @@ class Machine:
             if not (lo <= v <= hi):
                 raise Inapplicable("value outside bounds after shrinking")
         for s in self.sides():
+            if op.get("elementwise") and p in ("anis", "angles") and isinstance(v, list):
+                # the arrays the model hands out are its state: written element by element
+                arr = getattr(s.srf.model, p)
+                if len(arr) != len(v) or self.flavor != "plain":
+                    raise Inapplicable("elementwise needs the complete list, plain models")
+                for i, x in enumerate(v):
+                    arr[i] = x
+                self.ctx.probe("set.elementwise")
+                continue
             try:
                 self._set_param(s.srf.model, p, v)
             except ValueError as e:
